@@ -276,10 +276,10 @@ Proof.
   destruct (resend_drain (S (length (olist (shared_stash stash next)))) s1 (olist (shared_stash stash next)) next) as [[[s2 l'] next2] still] eqn:Ed.
   exists s2, l', next2, still. split; [reflexivity|].
   destruct still; cbn [negb] in E; [right; split; [reflexivity|] | left; split; [reflexivity|]; inversion E; reflexivity].
-  assert (Hreq : forall x (p : sess * sstate), (exists c e, snd p = SResend None c e) ->
+  assert (Hreq : forall x (p : sess * sstate), (exists c e, snd p = SResend (Some []) c e) ->
             exists c e, snd (match p with (s3, SResend _ c e) => (s3, SResend x c e) | (s3, other) => (s3, other) end) = SResend x c e).
   { intros x [s3 st3] (c & e & Hp). cbn [snd] in Hp. subst st3. exists c, e. reflexivity. }
-  assert (Hsr : forall b e, exists c e', snd (send_resend_request s2 b e) = SResend None c e').
+  assert (Hsr : forall b e, exists c e', snd (send_resend_request s2 b e) = SResend (Some []) c e').
   { intros b e. destruct (send_resend_request s2 b e) as [s3 st3] eqn:Er.
     destruct (send_resend_request_shape _ _ _ _ _ Er) as (_ & c & -> & _). exists c, e. reflexivity. }
   destruct (negb (ce =? 0) && (ce <? s_tgt s2) && (s_tgt s2 <=? re)).
@@ -708,6 +708,7 @@ Proof.
   - free_rest.
   - free_rest.
   - apply (clause_405 i s e kept); assumption.
+  - free_rest.
   - match goal with |- free_of _ (c04_scan _ _ ?kn _ _) = true =>
       change kn with (kept_next e (obs_of s) (obs_of (step s e)) kept) end.
     rewrite <- (step_cfg (s_cfg s) s e eq_refl).
